@@ -33,7 +33,7 @@ CONSTANTS
   MaxVars    \* variable definitions per operation
 
 Rich == Pools = "rich"
-Tiny == Pools = "tiny"
+Tiny == Pools \in {"tiny", "ops"}          \* "ops" = tiny pools with every operation kind (multi-operation documents in every order)
 None == "<none>"
 T(s, r) == [s |-> s, r |-> r]
 Tk(ss, r) == [i \in 1..Len(ss) |-> T(ss[i], r)]
@@ -57,7 +57,7 @@ OpNames == IF Rich THEN {"Q"} \cup SoftKeywords ELSE IF Tiny THEN {} ELSE {"Q"}
 FragNames == IF Rich THEN {"F", "G"} \cup (SoftKeywords \ {"on"}) ELSE IF Tiny THEN {"F", "G"} ELSE {"F", "query"}
 TypeNames == IF Rich THEN {"T", "Int"} \cup SoftKeywords ELSE {"T"}
 VarNames == IF Rich THEN {"v", "w"} \cup SoftKeywords ELSE IF Tiny THEN {"v"} ELSE {"v", "query"}
-OpKinds == IF Rich THEN {"query", "mutation", "subscription"} ELSE IF Tiny THEN {"query"} ELSE {"query", "mutation"}
+OpKinds == IF Rich \/ Pools = "ops" THEN {"query", "mutation", "subscription"} ELSE IF Tiny THEN {"query"} ELSE {"query", "mutation"}
 
 \* literal spellings, one per lexical variety (IntValue, FloatValue, StringValue incl. escapes and block strings,
 \* BooleanValue, NullValue, EnumValue incl. soft keywords, Variable)
@@ -144,19 +144,6 @@ Text(d) == IF Len(d) = 0 THEN "" ELSE
                J(i) == IF i = 1 THEN d[1].s ELSE J(i - 1) \o " " \o d[i].s
            IN J(Len(d))
 
-\* limits with which ParseWithLimits is exercised: around the real numbers (0 = no limit, by the API's documentation)
-LimitPairs(d) ==
-  LET D == InlinedDepth(d)  S == Depth(d)  F == FieldCount(d)
-      all == <<[l |-> D - 1, f |-> 0], [l |-> 0, f |-> F - 1], [l |-> D - 1, f |-> F - 1], [l |-> D, f |-> F],
-               [l |-> D, f |-> F - 1], [l |-> D - 1, f |-> F], [l |-> D + 1, f |-> F + 1], [l |-> S - 1, f |-> 0],
-               [l |-> 0, f |-> 1], [l |-> 1, f |-> 0], [l |-> 0, f |-> 0]>>
-  IN  SelectSeq(all, LAMBDA p : p.l >= 0 /\ p.f >= 0)
-
-\* LimitsSound: a document whose real selection depth or field count exceeds a limit is never accepted
-Exceeds(d, L, F) == (L > 0 /\ InlinedDepth(d) > L) \/ (F > 0 /\ FieldCount(d) > F)
-ExceedsSyntactic(d, L, F) == (L > 0 /\ Depth(d) > L) \/ (F > 0 /\ FieldCount(d) > F)
-LimitsSoundFor(d, L, F, accepted) == Exceeds(d, L, F) => ~accepted
-
 \* ---------------------------------------------------------------- the implementation's token accounting (model)
 \* astparser/tokenizer.go TokenizeWithLimits sees spellings only: LBRACE, RBRACE, SPREAD, IDENT (and DOLLAR IDENT for a
 \* variable); every other token is ignored.  fixed = the repair (fixes/C05-1): (1) query/mutation/subscription/fragment
@@ -193,6 +180,24 @@ RECURSIVE ImplRun(_, _, _)
 ImplRun(d, i, fixed) == IF i = 0 THEN ImplInit ELSE ImplStep(ImplRun(d, i - 1, fixed), d[i].s, fixed)
 ImplFields(d, fixed) == ImplRun(d, Len(d), fixed).f          \* TokenizerStats.TotalFields
 ImplDepthMax(d, fixed) == ImplRun(d, Len(d), fixed).gmax     \* largest value compared against MaxDepth
+ImplTotalDepth(d, fixed) == LET a == ImplRun(d, Len(d), fixed) IN a.g + a.p     \* TokenizerStats.TotalDepth
+\* the limiter's decision by the (repaired) accounting: the documented semantics is cumulative - the depth of the
+\* definitions adds up (keyword-started definitions always, shorthand operations once a fragment has been seen)
+ModelAccepts(d, L, F) == (L = 0 \/ ImplDepthMax(d, TRUE) <= L) /\ (F = 0 \/ ImplFields(d, TRUE) <= F)
+
+\* limits with which ParseWithLimits is exercised: around the real numbers (0 = no limit, by the API's documentation)
+LimitPairs(d) ==
+  LET D == InlinedDepth(d)  S == Depth(d)  F == FieldCount(d)  M == ImplDepthMax(d, TRUE)  MF == ImplFields(d, TRUE)
+      all == <<[l |-> M - 1, f |-> 0], [l |-> M, f |-> 0], [l |-> (S + M) \div 2, f |-> 0], [l |-> 0, f |-> MF - 1], [l |-> 0, f |-> MF],
+               [l |-> D - 1, f |-> 0], [l |-> 0, f |-> F - 1], [l |-> D - 1, f |-> F - 1], [l |-> D, f |-> F],
+               [l |-> D, f |-> F - 1], [l |-> D - 1, f |-> F], [l |-> D + 1, f |-> F + 1], [l |-> S - 1, f |-> 0],
+               [l |-> 0, f |-> 1], [l |-> 1, f |-> 0], [l |-> 0, f |-> 0]>>
+  IN  SelectSeq(all, LAMBDA p : p.l >= 0 /\ p.f >= 0)
+
+\* LimitsSound: a document whose real selection depth or field count exceeds a limit is never accepted
+Exceeds(d, L, F) == (L > 0 /\ InlinedDepth(d) > L) \/ (F > 0 /\ FieldCount(d) > F)
+ExceedsSyntactic(d, L, F) == (L > 0 /\ Depth(d) > L) \/ (F > 0 /\ FieldCount(d) > F)
+LimitsSoundFor(d, L, F, accepted) == Exceeds(d, L, F) => ~accepted
 
 \* ---------------------------------------------------------------- token-level mutations (error paths)
 \* the four families applied by the driver to every generated document; NMut is what the driver must report
